@@ -509,6 +509,7 @@ void Add(const std::string& kind, yaclib::FailPolicy f, const std::string& form,
          const std::string& shape, Body body, bool reduced = false, bool passthrough = false) {
   int n = static_cast<int>(shape.size());
   for (auto& pat : Patterns(n, reduced)) {
+    if (shape.find('p') != std::string::npos && pat.find('X') != std::string::npos) continue;  // V / E patterns suffice there
     bool consistent = true;  // a duplicated future has one outcome
     for (int i = 1; i < n; ++i) consistent = consistent && (shape[i] != 'd' || pat[i] == pat[i - 1]);
     if (!consistent) continue;
@@ -1107,6 +1108,9 @@ int main(int argc, char** argv) {
       // three shared inputs (weak-CAS registration, callback lists): one preemption less keeps the quick tier quick
       bool shared3 = sc.n >= 3 && sc.shape.find_first_not_of('u') != std::string::npos;
       ex.ctx.preempt_bound = sc.n >= 3 ? (shared3 ? std::max(1, b3 - 1) : b3) : opt.preempt_bound;
+      // spurious weak-CAS failures of the shared registration are covered by the s / k scenarios
+      bool lists = sc.shape.find_first_of("pd") != std::string::npos;
+      ex.ctx.weak_bound = lists ? 0 : opt.weak_bound;
     }
     // --sanitizer-pass: the reduced scenario set of the AddressSanitizer build (memory errors are invisible otherwise):
     // everything with a shared input (callback lists, DynamicCombinator) and the iterator forms
